@@ -41,7 +41,7 @@ def gen_table(rng, nrows=None):
     cols = ["onset", "duration", "trial_type", "response", "code", "value"]
     lines = ["\t".join(cols)]
     t = 0.0
-    code_na = rng.random() < 0.3
+    code_na = rng.random() < 0.5
     dur_na = rng.random() < 0.3
     for i in range(n):
         t += rng.choice([0.25, 0.5, 1.0, 1.5])
@@ -349,10 +349,16 @@ def gen_op(rng, tables, optional=True):
         dst = list(dict.fromkeys(d for d in dst if d not in cols))
         if not dst:
             return None
+        # the optional parameter: a source column of whole numbers (some cells may be missing) matched as integers
+        whole = lambda c: all(r[c] is None or (not isinstance(r[c], (str, bool)) and float(r[c]).is_integer())      # noqa
+                              for t in tables for r in t["rows"])
+        if "code" in anycols and whole("code") and rng.random() < 0.5:
+            src = ["code"] + [c for c in src if c != "code"][:1]        # the whole-number column, wherever it still is one
+        ints = [c for c in src if c not in ("onset", "duration") and whole(c)] if rng.random() < 0.7 else []
         keys = []
         for t in tables:
             for r in t["rows"]:
-                k = tuple("n/a" if r[c] is None else str(r[c]) for c in src)
+                k = tuple("n/a" if r[c] is None else (str(int(r[c])) if c in ints else str(r[c])) for c in src)
                 if k not in keys:
                     keys.append(k)
         if not keys:
@@ -365,6 +371,8 @@ def gen_op(rng, tables, optional=True):
         pools = [rng.choice([["a", "b", "n/a"], [2.5, 7.25, 0.125]]) for _ in dst]
         mp = [list(k) + [rng.choice(pool) for pool in pools] for k in keys]
         p = dict(source_columns=src, destination_columns=dst, map_list=mp, ignore_missing=ign)
+        if ints:
+            p["integer_sources"] = ints
     elif kind == "merge_consecutive":
         if not anycols:
             return None
